@@ -170,6 +170,10 @@ HandleCmd(S, c) ==
              op == Scripts[P.script][P.pc]
              S1 == [S EXCEPT !.effecting = @ \ {c.p}]
              S2 == IF ~P.live THEN S1
+                   ELSE IF P.phase = "fwait"            \* the effect was requested by a filter body
+                   THEN IF P.result # None THEN S1      \* (failed meanwhile by an awaited process: nothing changes)
+                        ELSE IF c.ok THEN [S1 EXCEPT !.proc[c.p].phase = "fdone"]
+                        ELSE [S1 EXCEPT !.proc[c.p].result = Some(ErrV("InvalidArgument:Effect operation failed: " \o c.e))]
                    ELSE IF c.ok
                    THEN [S1 EXCEPT !.proc[c.p].regs[op.dst] = c.v, !.proc[c.p].pc = @ + 1]
                    ELSE IF P.result # None THEN S1        \* (a finished process keeps its result: 34b580c)
@@ -305,14 +309,20 @@ ExecOp(S, p) ==
   LET P == S.proc[p]
       ops == Scripts[P.script]
   IN
-  IF P.phase = "filter"
+  IF P.phase \in {"filter", "fdone"}
   THEN \* the filter body runs to its end; a function return ends the slice (executor.rs step)
+       \* (a body that calls an effect builtin first parks the process in `effecting` - phase "fwait" - and
+       \* goes on - phase "fdone" - when the completion has arrived)
        LET st == P.sel[1]
            i == CHOOSE i \in 1..Len(st.srcs) : IsRecv(st.srcs[i]) /\ RecvIndex(st.srcs, i) = st.receiving[1][1]
            src == st.srcs[i]
        IN IF src.body = "spawn" THEN Fail(S, p, "OperationNotAllowed:spawn")
           ELSE IF src.body = "send" THEN Fail(S, p, "OperationNotAllowed:send")
           ELSE IF src.body = "fail" THEN Fail(S, p, "InvalidArgument:Division by zero")
+          ELSE IF src.body \in {"effect", "effect_fail"} /\ P.phase = "filter"
+          THEN Emit([S EXCEPT !.effecting = @ \cup {p}, !.halt = TRUE, !.proc[p].phase = "fwait"],
+                    [t |-> "EffectRequest", p |-> p, op |-> IF src.body = "effect" THEN "open" ELSE "openfail",
+                     res |-> None])
           ELSE [S EXCEPT !.proc[p].phase = "verdict",
                          !.proc[p].verdict = FilterAccepts(st.receiving[1][2], src),
                          !.halt = TRUE]
@@ -548,17 +558,18 @@ EnvHandle(w) ==
                                         e |-> "Process " \o ToString(e.p) \o " does not own resource " \o ToString(e.res[1])])
                        /\ UNCHANGED <<owner, backend, obs>>
                   ELSE LET isOpen == e.res # None /\ e.res[1] \in backend.open
-                           okk == e.op = "open" \/ isOpen
+                           okk == e.op = "open" \/ (e.op # "openfail" /\ isOpen)     \* "openfail": a path that does not exist
                            newRes == backend.next
                            val == CASE e.op = "open" -> [k |-> "res", r |-> newRes]
                                     [] e.op = "use" -> [k |-> "bin", b |-> <<47>>]
                                     [] OTHER -> OkV
-                           entry == [call |-> "execute", p |-> e.p, op |-> e.op, res |-> e.res,
+                           entry == [call |-> "execute", p |-> e.p, op |-> IF e.op = "openfail" THEN "open" ELSE e.op, res |-> e.res,
                                      owner |-> IF e.res # None /\ AHas(owner, e.res[1])
                                                THEN Some(AGet(owner, e.res[1])) ELSE None,
-                                     created |-> IF e.op = "open" THEN Some(newRes) ELSE None, ok |-> okk]
+                                     created |-> IF e.op = "open" THEN Some(newRes) ELSE None, ok |-> okk]     \* ("openfail" creates nothing)
                            done == IF okk THEN [t |-> "EffectCompletion", p |-> e.p, ok |-> TRUE, v |-> val]
-                                   ELSE [t |-> "EffectCompletion", p |-> e.p, ok |-> FALSE, e |-> "Invalid argument: closed"]
+                                   ELSE [t |-> "EffectCompletion", p |-> e.p, ok |-> FALSE,
+                                         e |-> IF e.op = "openfail" THEN "Not found: !x" ELSE "Invalid argument: closed"]
                            be1 == CASE e.op = "open" -> [backend EXCEPT !.open = @ \cup {newRes}, !.next = newRes + 1]
                                     [] e.op = "close" /\ isOpen -> [backend EXCEPT !.open = @ \ {e.res[1]}]
                                     [] OTHER -> backend
